@@ -202,6 +202,22 @@ Theorem C16_width_bound_needed :
 Proof. exact u16_bound_needed. Qed.
 Print Assumptions C16_width_bound_needed.
 
+(* ---------------- text_draws_lines ---------------- *)
+(* Text.drawSoftwrap / RichText.drawSoftwrap on the emitted lines (as drawn characters; restyle =
+   the widget's style for plain text, identity for rich text): no index panic, and the surface has
+   min(#lines, Max.Height) rows, at most Max.Width columns, and in row i the cell at column c is the
+   character of line i that starts at column c (the last one if a zero-width character shares the
+   column), else the blank cell — surface_ok_b, the predicate the harness evaluates on the
+   surfaces returned by the real Draw. *)
+Theorem C16_text_draws_lines :
+  forall (restyle : cell -> cell) (fill : Z) (lines : list (list cell)) (MaxW MaxH : Z),
+    0 <= MaxW < 65536 -> 0 <= MaxH < 65536 -> zlen lines < 65536 ->
+    Forall (fun l => wok l /\ sumw l < 65536) lines ->
+    exists obs, draw_softwrap restyle fill lines MaxW MaxH = Some obs /\
+                surface_ok_b restyle fill lines MaxW MaxH obs = true.
+Proof. exact draw_softwrap_ok. Qed.
+Print Assumptions C16_text_draws_lines.
+
 (* ---------------- non-vacuity ---------------- *)
 (* the hypotheses hold for uniseg's own tables of "x ab-cd" (break opportunities after "x " and
    "ab-") and of "foo\nbar" (mandatory break after the newline), at width 2 *)
@@ -222,3 +238,9 @@ Example C16_examples_computed :
   map (fun x => flat (fst x)) (fst (plain_scan (tbl_orc ex2_tbl) 2 ex2_input)) = [[102; 111]; [111]; [98; 97]; [114]] /\
   cuts_of 7 (fst (plain_scan (tbl_orc ex2_tbl) 2 ex2_input)) = [2; 4; 6; 7]%nat.
 Proof. exact ex_runs. Qed.
+
+(* drawing the two lines "ab" and "c" into a 3 x 5 box gives a 2 x 2 surface with rows ab / c· *)
+Example C16_draw_example :
+  draw_softwrap (plain_restyle 7) 7 [ex_cells [97; 98]; ex_cells [99]] 3 5 =
+  Some (2, 2, [mkCell [97] 1 7; mkCell [98] 1 7; mkCell [99] 1 7; mkCell [] 0 7]).
+Proof. reflexivity. Qed.
